@@ -77,7 +77,10 @@ class FormulaParser(Parser):
                   | expression AMP expression
         """
         if p[2] == '&':
-            p[0] = str(p[1]) + str(p[3])
+            # a blank operand contributes nothing
+            left = '' if p[1] is None else p[1]
+            right = '' if p[3] is None else p[3]
+            p[0] = str(left) + str(right)
         else:
             p[0] = operators.evaluate_arithmetic(p[2], p[1], p[3])
 
